@@ -366,6 +366,12 @@ fn check_rust_attrs(s: &Schema) -> PResult {
                 if !oneofs.iter().any(|o| **o == r.name) {
                     return fail("C07/rust-extra-field", format!("struct {rp} has a oneof field {} unknown to the schema", r.name));
                 }
+                // the tags list on the holder decides which numbers are routed into the oneof when decoding
+                let tags: BTreeSet<u32> = r.kind.split("tags=").nth(1).unwrap_or("").split(',').filter_map(|x| x.trim().parse().ok()).collect();
+                let want: BTreeSet<u32> = m.fields.iter().filter(|f| f.oneof.as_deref() == Some(r.name.as_str())).map(|f| f.number).collect();
+                if tags != want {
+                    return fail("C07/rust-attribute-mismatch", format!("oneof {}.{}: schema members have numbers {want:?}, ommx.v1.rs routes tags {tags:?}", full, r.name));
+                }
                 continue;
             }
             if !m.fields.iter().any(|f| f.name == r.name) {
@@ -434,8 +440,8 @@ impl Property for C07 {
     }
     fn cases(&self, tier: Tier) -> usize {
         match tier {
-            Tier::Quick => 40_000,
-            Tier::Thorough => 2_000_000,
+            Tier::Quick => 300_000,
+            Tier::Thorough => 8_000_000,
         }
     }
     fn tape_max(&self) -> usize {
